@@ -355,8 +355,10 @@ def run_history(case, ctx):
             except Exception as e:  # noqa: BLE001
                 out = ("raised", type(e).__name__)
         if fault is not None and not ctl.fired:
-            # the enumerated crash point does not exist for this call (k > K): not a case
-            raise HarnessError("fault %r never fired in %s (history %r)" % (fault, name, case["history"]))
+            # the call ended (returned or raised for a reason of its own) before reaching the enumerated crash point: the invariants
+            # below still apply to whatever happened
+            ctl.arm = None
+            ctx.label("crash_point_not_reached")
         if ctl.fired and ctl.hooks_at_fault:
             nt = True
             ctx.label("fault_fired_with_hooks_registered")
